@@ -3,7 +3,6 @@
 
 use std::collections::BTreeMap;
 use std::sync::{Arc, Mutex};
-use std::time::{Duration, SystemTime};
 
 use scion_stack::path::PathStrategy;
 use scion_stack::path::manager::traits::{PathManager, PathPrefetcher, PathWaitError};
@@ -36,6 +35,10 @@ pub struct Handout {
     pub kind: &'static str,
     pub pair: Pair,
     pub t_ns: u64,
+    /// instant of the call (the `now` the caller passed)
+    pub t_call_ns: u64,
+    /// scheduler step (baton hand-over count) at which the result was produced
+    pub step: u64,
     pub res: HandRes,
 }
 
@@ -71,6 +74,9 @@ impl Report {
 pub struct Penalty {
     pub report: Report,
     pub t_ns: u64,
+    /// per destination: the instant the pair's worker was first free to process the report (it does not poll
+    /// the issue channel while a lookup is outstanding and applies the full penalty at processing time)
+    pub t_eff: Vec<Option<u64>>,
 }
 
 pub struct WorkerInfo {
@@ -87,7 +93,7 @@ pub struct Hist<'a> {
     pub routes: Vec<Route>,
     pub n_dst: usize,
     pub policies: PolicySet,
-    pub probes: Arc<Mutex<BTreeMap<(u64, u64), PathSetProbe>>>,
+    pub probes: Arc<Mutex<BTreeMap<(u64, u64), (PathSetProbe, u64, Option<ActorId>)>>>,
     pub handouts: Arc<Mutex<Vec<Handout>>>,
     pub seen_handouts: usize,
     pub knowledge: Knowledge,
@@ -134,20 +140,34 @@ impl<'a> Hist<'a> {
         sim.log(format!("config {}", describe_config(&cfg)));
         sim.log(format!("policy {}", policies.desc));
         for (i, r) in routes.iter().enumerate() {
-            sim.log(format!("route r{i} dst{} {}", r.dst, r.describe()));
+            let f = fp_str(&build_path(r, (BASE_SECS + 1000) as u32, true));
+            sim.log(format!("route r{i}={} dst{} {}", &f[..4], r.dst, r.describe()));
         }
         let fetch = Arc::new(Mutex::new(FetchState::default()));
         let fetcher = SimFetcher { st: fetch.clone(), sim: sim.clone() };
         let mut strategy: PathStrategy = verif_shim::strategy_with_default_scorers();
         strategy.policies = policies.policies.clone();
         let mgr = MultiPathManager::new(cfg.build(), fetcher, strategy).expect("drawn configuration is valid");
-        let probes: Arc<Mutex<BTreeMap<(u64, u64), PathSetProbe>>> = Arc::new(Mutex::new(BTreeMap::new()));
+        let probes: Arc<Mutex<BTreeMap<(u64, u64), (PathSetProbe, u64, Option<ActorId>)>>> = Arc::new(Mutex::new(BTreeMap::new()));
         {
             let probes = probes.clone();
+            let sim2 = sim.clone();
             sim.set_probe_fn(Arc::new(move |key, v| {
                 if key == "pathset" {
                     if let Some(p) = v.downcast_ref::<PathSetProbe>() {
-                        probes.lock().unwrap().insert(pair_key((p.src, p.dst)), p.clone());
+                        let step = sim2.with(|s| s.steps);
+                        let now_s = p.now.duration_since(std::time::UNIX_EPOCH).map(|d| d.as_secs()).unwrap_or(0) as i64;
+                        let act = p.active.map(|f| format!("{f:#}"));
+                        let cached: Vec<String> = p
+                            .cached
+                            .iter()
+                            .map(|(path, score, _)| {
+                                let f = format!("{:#}", path.fingerprint());
+                                format!("{}{}@{}/{}", if Some(&f) == act.as_ref() { "*" } else { "" }, &f[..4], path.expiration().unwrap_or(0) as i64 - now_s, (score * 64.0).round() as i64)
+                            })
+                            .collect();
+                        sim2.log(format!("probe {} ->{} active={} cached=[{}] fails={}", p.step, p.dst, act.as_deref().map(|f| f[..4].to_string()).unwrap_or("-".into()), cached.join(" "), p.failed_attempts));
+                        probes.lock().unwrap().insert(pair_key((p.src, p.dst)), (p.clone(), step, simrt::current_actor()));
                     }
                 }
             }));
@@ -207,6 +227,7 @@ impl<'a> Hist<'a> {
         let caller = self.callers;
         self.callers += 1;
         let now = self.sim.now();
+        let t_call_ns = self.sim.now_ns();
         self.sim.log(format!("send c{caller} ->{}", pair.1));
         self.sim.spawn("caller", async move {
             let r = mgr.path_wait(pair.0, pair.1, now).await;
@@ -215,7 +236,7 @@ impl<'a> Hist<'a> {
                 Err(PathWaitError::NoPathFound) => HandRes::Err("no-path".into()),
                 Err(e) => HandRes::Err(format!("{e}").chars().take(60).collect()),
             };
-            out.lock().unwrap().push(Handout { caller, kind: "send", pair, t_ns: sim.now_ns(), res });
+            out.lock().unwrap().push(Handout { caller, kind: "send", pair, t_ns: sim.now_ns(), t_call_ns, step: sim.with(|s| s.steps), res });
             drop(mgr);
         });
     }
@@ -225,6 +246,7 @@ impl<'a> Hist<'a> {
         let caller = self.callers;
         self.callers += 1;
         let now = self.sim.now();
+        let t_call_ns = self.sim.now_ns();
         self.sim.log(format!("try_send c{caller} ->{}", pair.1));
         self.sim.spawn("try", async move {
             let r = mgr.cached_path(pair.0, pair.1, now);
@@ -232,7 +254,7 @@ impl<'a> Hist<'a> {
                 Some(p) => HandRes::Path(p),
                 None => HandRes::None,
             };
-            out.lock().unwrap().push(Handout { caller, kind: "try", pair, t_ns: sim.now_ns(), res });
+            out.lock().unwrap().push(Handout { caller, kind: "try", pair, t_ns: sim.now_ns(), t_call_ns, step: sim.with(|s| s.steps), res });
             drop(mgr);
         });
     }
@@ -249,10 +271,22 @@ impl<'a> Hist<'a> {
     pub fn op_stop(&mut self, pair: Pair) {
         let mgr = self.mgr();
         self.sim.log(format!("stop_managing ->{}", pair.1));
+        let gc_now = self.sim.chance(1, 2);
         self.sim.spawn("op", async move {
             mgr.stop_managing_paths(pair.0, pair.1);
+            if gc_now {
+                verif_shim::collect_removed(&mgr);
+            }
             drop(mgr);
         });
+    }
+
+    /// The concurrent map's deferred garbage collection runs: workers of removed pairs are released (cancelled).
+    pub fn op_gc(&mut self) {
+        if let Some(m) = &self.mgr {
+            let n = verif_shim::collect_removed(m);
+            self.sim.log(format!("gc released {n}"));
+        }
     }
 
     pub fn op_report(&mut self, rep: Report) {
@@ -263,11 +297,11 @@ impl<'a> Hist<'a> {
         self.sim.spawn("op", async move {
             match r2 {
                 Report::ExtIfDown { asn, ifid, tag } => {
-                    let m = ScmpExternalInterfaceDown::new(ia(1, asn), ifid, vec![tag; 8]);
+                    let m = ScmpExternalInterfaceDown::new(ia(1, asn), ifid, vec![tag; 8 + tag as usize]);
                     mgr.report_scmp_error(ScmpErrorMessage::ExternalInterfaceDown(m), some_path.dp_path().as_ref());
                 }
                 Report::IntConnDown { asn, ing, eg, tag } => {
-                    let m = ScmpInternalConnectivityDown::new(ia(1, asn), ing, eg, vec![tag; 8]);
+                    let m = ScmpInternalConnectivityDown::new(ia(1, asn), ing, eg, vec![tag; 8 + tag as usize]);
                     mgr.report_scmp_error(ScmpErrorMessage::InternalConnectivityDown(m), some_path.dp_path().as_ref());
                 }
                 Report::FirstHop { ifid } => {
@@ -277,7 +311,7 @@ impl<'a> Hist<'a> {
             }
             drop(mgr);
         });
-        self.penalties.push(Penalty { report: rep, t_ns: self.sim.now_ns() });
+        self.penalties.push(Penalty { report: rep, t_ns: self.sim.now_ns(), t_eff: vec![None; self.n_dst] });
         self.reports_since_worker_step += 1;
     }
 
@@ -313,7 +347,9 @@ impl<'a> Hist<'a> {
                         let c = [3600u32, 1, 2, thr.saturating_sub(1).max(1), thr, thr + 1, thr + 30, 2 * thr + 7, 900, 6 * 3600];
                         c[sim.idx(c.len())]
                     };
-                    let no_meta = !benign && self.faults_enabled && sim.chance(1, 10);
+                    // (C07: a path without metadata cannot be matched against interface reports by design; it is
+                    // outside that property's claim)
+                    let no_meta = !benign && self.faults_enabled && self.prop != "C07" && sim.chance(1, 10);
                     if no_meta {
                         sim.fault("path-without-metadata");
                     }
@@ -497,6 +533,17 @@ impl<'a> Hist<'a> {
             }
         }
         self.track_cache_membership();
+        {
+            let now = self.sim.now_ns();
+            let free: Vec<bool> = (0..self.n_dst).map(|d| !self.fetch.lock().unwrap().outstanding_for(self.pair(d))).collect();
+            for p in self.penalties.iter_mut() {
+                for d in 0..free.len() {
+                    if p.t_eff[d].is_none() && free[d] {
+                        p.t_eff[d] = Some(now);
+                    }
+                }
+            }
+        }
         self.check_handouts()?;
         self.check_requests()?;
         self.check_sizes()?;
@@ -563,7 +610,20 @@ impl<'a> Hist<'a> {
                         self.violate("C05/unknown-path", format!("path {name} (expiry {exp}) was never delivered by a successful lookup for {}->{}", h.pair.0, h.pair.1))?;
                     }
                     if t_secs >= exp {
-                        self.violate("C06/expired-handout", format!("path {name} expired {}s before it was handed out ({})", t_secs - exp, h.kind))?;
+                        // causal tag: has the worker completed any step since the path expired?
+                        let pr = self.probes.lock().unwrap().get(&pair_key(h.pair)).cloned();
+                        let exp_t = std::time::SystemTime::UNIX_EPOCH + std::time::Duration::from_secs(exp as u64);
+                        let call_secs = (BASE_SECS + h.t_call_ns / NS) as u32;
+                        let tag = if call_secs < exp {
+                            " [caller waited across the expiry; the manager judges expiry by the time of the call]"
+                        } else {
+                            match pr {
+                                Some((pr, _, _)) if pr.now < exp_t => " [no worker step since expiry]",
+                                None => " [no worker step since expiry]",
+                                _ => "",
+                            }
+                        };
+                        self.violate("C06/expired-handout", format!("path {name} expired {}s before it was handed out ({}){tag}", t_secs - exp, h.kind))?;
                     }
                     if let Some(r) = self.route_of_fp(&fp_str(p)) {
                         self.check_fresh_penalty(h.pair, r, h.t_ns)?;
@@ -578,10 +638,15 @@ impl<'a> Hist<'a> {
                     if h.t_ns == self.sim.now_ns() && !self.fetch.lock().unwrap().outstanding_for(h.pair) && self.live_worker(h.pair).is_some() {
                         let thr = self.cfg.min_expiry_threshold.as_secs() as u32;
                         let pr = self.probes.lock().unwrap().get(&pair_key(h.pair)).cloned();
-                        if let Some(pr) = pr {
+                        if let Some((pr, pstep, pactor)) = pr {
+                            if pactor != self.live_worker(h.pair) {
+                                continue;
+                            }
                             let valid: Vec<String> = pr.cached.iter().filter(|(p, _, _)| p.expiration().unwrap_or(0) > t_secs + thr).map(|(p, _, _)| self.route_name(p)).collect();
-                            if !valid.is_empty() && pr.now <= SystemTime::UNIX_EPOCH + Duration::from_secs(BASE_SECS) + Duration::from_nanos(h.t_ns) {
-                                self.violate("C06/left-without-path", format!("{} returned no path although the worker caches valid paths {valid:?} and no lookup is outstanding", h.kind))?;
+                            // the worker published this state before the request was answered
+                            if !valid.is_empty() && pstep < h.step {
+                                let tag = if pr.failed_attempts > 0 { " [last lookup failed: next maintenance is scheduled by the back-off, not by the active path's expiry]" } else { "" };
+                                self.violate("C06/left-without-path", format!("{} returned no path although the worker caches valid paths {valid:?} and no lookup is outstanding{tag}", h.kind))?;
                             }
                         }
                     }
@@ -651,7 +716,7 @@ impl<'a> Hist<'a> {
     /// C06 (c), (d): sizes.
     fn check_sizes(&mut self) -> RunResult2 {
         let max = self.cfg.max_cached_paths_per_pair;
-        let over: Vec<(usize, String)> = self.probes.lock().unwrap().values().filter(|p| p.cached.len() > max).map(|p| (p.cached.len(), format!("{}", p.dst))).collect();
+        let over: Vec<(usize, String)> = self.probes.lock().unwrap().values().filter(|(p, _, _)| p.cached.len() > max).map(|(p, _, _)| (p.cached.len(), format!("{}", p.dst))).collect();
         for (n, d) in over {
             self.violate("C06/cache-exceeds-max", format!("{n} paths cached for ->{d}, configured maximum {max}"))?;
         }
